@@ -198,6 +198,26 @@ impl Fam {
         (x, y)
     }
 
+    /// a segment skimming along a coordinate axis at a tiny distance (both end points on the same
+    /// side, or on opposite sides): edges on that axis are passed at a distance whose products
+    /// with anything underflow
+    pub fn skim_segment(&self, rng: &mut Rng, ctx: &Ctx) -> ((f64, f64), (f64, f64)) {
+        let tag = ctx.tri.tag();
+        let tiny = |rng: &mut Rng| -> f64 {
+            let k = if tag == 'd' { *rng.pick(&[60, 200, 400, 600, 1000, 1070]) } else { *rng.pick(&[30, 100, 130, 145]) };
+            2f64.powi(-k) * (1 + rng.below(3)) as f64
+        };
+        let s1 = if rng.chance(500) { 1.0 } else { -1.0 };
+        let s2 = if rng.chance(700) { s1 } else { -s1 };
+        let (a, b) = (self.qpoint(rng, ctx), self.qpoint(rng, ctx));
+        let (t1, t2) = (s1 * tiny(rng), s2 * tiny(rng));
+        if rng.chance(500) {
+            ((a.0, t1), (b.0, t2))
+        } else {
+            ((t1, a.1), (t2, b.1))
+        }
+    }
+
     pub fn qpoint(&self, rng: &mut Rng, ctx: &Ctx) -> (f64, f64) {
         let tag = ctx.tri.tag();
         let nv = ctx.tri.nv();
@@ -583,6 +603,11 @@ fn query(rng: &mut Rng, ctx: &mut Ctx, fam: &Fam, class: &str) {
             // end points exactly in the interior of an existing edge (mid or quarter point; exact
             // on the small-integer families): a segment that ends on the boundary of the face it
             // has just entered, or starts on an edge
+            if rng.chance(40) {
+                let (a, b) = fam.skim_segment(rng, ctx);
+                p = a;
+                q = b;
+            }
             if ctx.tri.nde() >= 2 {
                 if rng.chance(300) {
                     q = edge_point(rng, ctx);
@@ -695,6 +720,11 @@ fn query(rng: &mut Rng, ctx: &mut Ctx, fam: &Fam, class: &str) {
             if ctx.tri.kind() == "cdt" {
                 let mut p = fam.qpoint_tiny(rng, ctx);
                 let mut q = fam.qpoint_tiny(rng, ctx);
+                if rng.chance(60) {
+                    let (a, b) = fam.skim_segment(rng, ctx);
+                    p = a;
+                    q = b;
+                }
                 if nv >= 3 && rng.chance(350) {
                     // a segment that stays outside of the hull: from a corner region of the
                     // bounding box a quarter of the way towards a point of the box
